@@ -214,4 +214,136 @@ def convertedG (rules : List Rule) (run : Nat) (p : Path) (o : OldProp) : Option
                           definition := nonEmpty o.definition, unit := nonEmpty o.unit }
   (applyRules run p o ⟨main, [], false⟩ rules).map fun acc => (p, PObj.new acc.main) :: acc.extras
 
+/-! ## `create_property`, the arguments of the main call, `has_valid_file_id`, `file_upgrade` -/
+
+/-- where the value of an attribute written by `create_property` comes from -/
+inductive CreateSrc where
+  | lastComponent            -- `name.split("/")[-1]`
+  | freshId                  -- `nix.util.create_id()`
+  | now                      -- `nix.util.time_to_str(nix.util.now_int())`
+  | param (p : String)       -- a parameter, as it was handed in
+  deriving DecidableEq, Repr
+
+inductive CreateCond where
+  | always
+  | truthy (p : String)      -- `if <parameter>:`
+  deriving DecidableEq, Repr
+
+structure AttrWrite where
+  attr : String
+  src : CreateSrc
+  cond : CreateCond
+  deriving DecidableEq, Repr
+
+/-- what an argument of the main `create_property` call was read from -/
+inductive OldSrc where
+  | field (f : String)        -- `prop["<f>"]`
+  | fieldDtype (f : String)   -- `prop["<f>"].dtype`
+  | attr (a : String)         -- `prop.attrs.get("<a>")`
+  deriving DecidableEq, Repr
+
+/-- the arguments of one `create_property` call (the file and the name aside) -/
+structure CreateArgs where
+  dtype : String
+  data : List Val
+  definition : Option String
+  unit : Option String
+  deriving DecidableEq, Repr
+
+/-- a text parameter by name -/
+def CreateArgs.text (a : CreateArgs) (p : String) : Option (Option String) :=
+  if p == "definition" then some a.definition
+  else if p == "unit" then some a.unit
+  else none
+
+/-- a text attribute of the old dataset by name -/
+def oldAttr (o : OldProp) (a : String) : Option (Option String) :=
+  if a == "definition" then some o.definition
+  else if a == "unit" then some o.unit
+  else none
+
+def findArg (args : List (String × OldSrc)) (k : String) : Option OldSrc :=
+  (args.find? (·.1 == k)).map (·.2)
+
+/-- the arguments of the main call, read off the source: each keyword with what it was read from -/
+def mainArgsG (args : List (String × OldSrc)) (o : OldProp) : Option CreateArgs :=
+  match findArg args "dtype", findArg args "data", findArg args "definition", findArg args "unit" with
+  | some (.fieldDtype fd), some (.field fv), some (.attr ad), some (.attr au) =>
+    if fd == "value" && fv == "value" && args.length == 4 then
+      match oldAttr o ad, oldAttr o au with
+      | some d, some u => some ⟨o.dtype, o.rows.map (·.value), d, u⟩
+      | _, _ => none
+    else none
+  | _, _, _, _ => none
+
+/-- the arguments of a call that passes `dtype` and `data` only: the other parameters must default to None -/
+def defaultArgsG (params : List (String × Bool)) (dt : String) (vals : List Val) : Option CreateArgs :=
+  if params == [("hfile", false), ("name", false), ("dtype", false), ("data", false), ("definition", true),
+                ("unit", true)] then some ⟨dt, vals, none, none⟩
+  else none
+
+/-- the new dataset while its attributes are being written -/
+structure Draft where
+  name : Bool
+  id : Option Id
+  created : Option Stamp
+  updated : Option Stamp
+  definition : Option String
+  unit : Option String
+
+/-- the text an attribute write stores: the parameter as handed in; under `if <q>:` only when `q` is a non-empty
+text (`None` and `""` are falsy); an unconditional write of `None` is not modelled -/
+def textWrite (a : CreateArgs) (p : String) (c : CreateCond) : Option (Option String) :=
+  match a.text p, c with
+  | some v, .truthy q => (a.text q).map fun t => if (nonEmpty t).isSome then v else none
+  | some (some t), .always => some (some t)
+  | _, _ => none
+
+def writeAttr (run : Nat) (a : CreateArgs) (d : Draft) (w : AttrWrite) : Option Draft :=
+  if w.attr == "name" then
+    (if w.src == .lastComponent && w.cond == .always then some { d with name := true } else none)
+  else if w.attr == "entity_id" then
+    (if w.src == .freshId && w.cond == .always then some { d with id := some (.fresh run) } else none)
+  else if w.attr == "created_at" then
+    (if w.src == .now && w.cond == .always then some { d with created := some (.now run) } else none)
+  else if w.attr == "updated_at" then
+    (if w.src == .now && w.cond == .always then some { d with updated := some (.now run) } else none)
+  else if w.attr == "definition" then
+    match w.src with
+    | .param p => (textWrite a p w.cond).map fun t => { d with definition := t }
+    | _ => none
+  else if w.attr == "unit" then
+    match w.src with
+    | .param p => (textWrite a p w.cond).map fun t => { d with unit := t }
+    | _ => none
+  else none
+
+def writeAttrs (run : Nat) (a : CreateArgs) : Draft → List AttrWrite → Option Draft
+  | d, [] => some d
+  | d, w :: ws => match writeAttr run a d w with
+    | none => none
+    | some d' => writeAttrs run a d' ws
+
+/-- `create_property` read off the source: the parameters reach `create_dataset` unchanged, then the attribute
+writes in order; the result is the model's new-layout property (the `name` attribute is the link name) -/
+def createG (dataset : List (String × String)) (writes : List AttrWrite) (run : Nat) (a : CreateArgs) :
+    Option NewProp :=
+  if dataset == [("name", "name"), ("dtype", "dtype"), ("data", "data")] then
+    match writeAttrs run a ⟨false, none, none, none, none, none⟩ writes with
+    | some ⟨true, some i, some c, some u, d, un⟩ =>
+      some { id := i, created := c, updated := u, dtype := a.dtype, values := a.data, definition := d, unit := un,
+             uncertainty := none }
+    | _ => none
+  else none
+
+/-- atoms of `has_valid_file_id` on the header's `id` attribute (`is_uuid(None)` is not reached and false anyway) -/
+def idEnv (i : FileId) (s : String) : Option Bool :=
+  if s == "truthy" then some (match i with | .absent => false | .text t => t != "" | .fresh _ => true)
+  else if s == "is_uuid" then some (match i with | .absent => false | .text t => isUuid t | .fresh _ => true)
+  else none
+
+/-- `file_upgrade` read off the source: the task list is collected, then processed; `none` = it returns True -/
+def entryG (ops : List String) (lib : List Nat) (run : Nat) (f : File) : Option (File × Option Err) :=
+  if ops == ["collect", "process"] then some (runSteps lib run f (collect lib f)) else none
+
 end Nix.Upgrade.Shape
